@@ -170,7 +170,7 @@ ConnValues(key) ==
                                              Mp([id |-> S("host.example"), privkey |-> S("PEM-PRIVATE")]),
                                              \* names that a resolver can turn into an address are names all the same (FQDN), not addresses
                                              Mp([id |-> S("alice.example"), psk |-> S("k")]), Mp([id |-> S("10.1"), psk |-> S("k")]), Mp([id |-> S("1234"), psk |-> S("k")]), Mp([id |-> S("bob@example.org"), pubkey |-> S("PEM-PUBLIC")]),
-                                             Mp([id |-> S("a"), privkey |-> S("garbage")]), Mp([id |-> S("a"), pubkey |-> I(7)]), Mp([id |-> I(5), psk |-> S("k")]),
+                                             Mp([id |-> S("a"), privkey |-> S("garbage")]), Mp([id |-> S("a"), pubkey |-> I(7)]), Mp([id |-> S("a"), pubkey |-> S("PEM-UNKNOWN-ALGORITHM")]), Mp([id |-> S("a"), privkey |-> S("PEM-PUBLIC")]), Mp([id |-> I(5), psk |-> S("k")]),
                                              Mp([id |-> S("a"), psk |-> I(5)]), Mp([id |-> Lst(<<>>), psk |-> S("k")]), Mp(<<>>),
                                              \* a secret is an octet string: blanks, tabs and line ends at either end (a YAML block scalar ends in a newline) and letter case are part of it
                                              Mp([id |-> S("a"), psk |-> S(" k")]), Mp([id |-> S("a"), psk |-> S("k ")]), Mp([id |-> S("a"), psk |-> S("k\n")]),
